@@ -54,6 +54,9 @@ func (m *Model) UpdateHail(hail *traits.Hail, opts ...resource.WriteOption) (*tr
 	if hail.GetId() == "" { // (getter: a request may leave the hail out altogether)
 		return nil, status.Error(codes.InvalidArgument, "missing ID")
 	}
+	// the id is part of every write, whatever the update mask says: a hail created by this call (create-if-absent)
+	// from the masked fields alone would be filed under its key with an empty Id of its own
+	opts = append(opts[:len(opts):len(opts)], resource.WithMoreUpdatePaths("id"))
 	msg, err := m.hails.Update(hail.Id, hail, opts...)
 	return castReturn(msg, err)
 }
